@@ -113,6 +113,9 @@ class ConfigList(ComposedNode, list):
         list.insert(self, index, value)
         self._children = { idx: self._children[idx] for idx in range(len(self)) }
 
+    def pop(self, index=-1):
+        return self._del(index)
+
     if not utils.python_is_at_least(3, 7):
         # for python < 3.7 (i.e., 3.6 and older)
         # list subclasses are unpickled without calling
